@@ -158,13 +158,18 @@ def gen_shape(rng, max_rank=3, sizes=(1, 2, 3)):
     return [rng.choice(sizes) for _ in range(rng.randint(0, max_rank))]
 
 
-def holder(spec_or_obj, shape):
-    """a tensordict of the batch shape holding the entry under 'a' (plus a tensor leaf 'x')"""
+def holder(spec_or_obj, shape, device=None):
+    """a tensordict of the batch shape holding the entry under 'a' (plus a tensor leaf 'x'); `device=None` (device-less) or
+    "cpu" (a tensordict that HAS a device takes other code paths in clone / apply / to)"""
     obj = build(spec_or_obj) if isinstance(spec_or_obj, tuple) else spec_or_obj
     n = int(np.prod(shape)) if shape else 1
-    td = TensorDict({"x": torch.arange(n).reshape(shape)}, batch_size=shape)
+    td = TensorDict({"x": torch.arange(n).reshape(shape)}, batch_size=shape, device=device)
     td.set("a", obj)
     return td
+
+
+def pick_device(rng):
+    return rng.choice([None, "cpu"])
 
 
 # --------------------------------------------------------------------------- index grammar
